@@ -33,14 +33,15 @@ Proof.
 Qed.
 Print Assumptions C08_encodings_wellformed.
 
-(* the denoted value of a map does not depend on the order of its members (distinct known keys) ... *)
-Theorem C08_member_order : forall es es' r, Permutation es es' -> NoDup (known_slots es) ->
-  fold_left apply_e es r = fold_left apply_e es' r.
-Proof. intros es es' r Hp Hn. apply fold_apply_perm; auto. Qed.
+(* the denoted value of a map does not depend on the order of its members (distinct known keys) ... - whichever members of the structure
+   the reader appends to on a repeated key ([accs]; cf. Schema.upd_slot) *)
+Theorem C08_member_order : forall accs es es' r, Permutation es es' -> NoDup (known_slots es) ->
+  fold_left (apply_e accs) es r = fold_left (apply_e accs) es' r.
+Proof. intros accs es es' r Hp Hn. apply fold_apply_perm; auto. Qed.
 Print Assumptions C08_member_order.
 (* ... nor on members with unknown keys, wherever they stand *)
-Theorem C08_unknown_members : forall es1 e es2 r, e_upd e = None ->
-  fold_left apply_e (es1 ++ e :: es2) r = fold_left apply_e (es1 ++ es2) r.
+Theorem C08_unknown_members : forall accs es1 e es2 r, e_upd e = None ->
+  fold_left (apply_e accs) (es1 ++ e :: es2) r = fold_left (apply_e accs) (es1 ++ es2) r.
 Proof. exact fold_apply_unknown. Qed.
 Print Assumptions C08_unknown_members.
 
